@@ -325,6 +325,10 @@ class workq:
                 if waiter in self._waiters:
                     self._waiters.remove(waiter)
 
+        if j.done:
+            # finished (killed, timed out) while in flight: take the next one
+            return self.pop(channels)
+
         return j
 
     def prefixmatch(self, prefix):
